@@ -3,7 +3,7 @@ from checks import _engine
 
 MANIFEST = dict(
     technique="Coq proof over the executable engine model (induction over action lists / invariants) + differential correspondence check model vs real LockDB",
-    text='Theorems in coq/Properties/C02*.v (refusal leaves the state unchanged; depth arithmetic of unlock / re-lock; consequences of the reachability invariant) are machine-checked over the engine model for all states / core histories; tie = differential correspondence on seeded histories biased to few LockIds, Rcount in {0,1,2,3,254,255}, unlocks of queued / expired / never-existing LockIds, unlock-first and cancel-wait; monitor = ownership + depth arithmetic evaluated on implementation snapshots.',
+    text='Theorems in coq/Properties/C02*.v (refusal leaves the state unchanged; who is found by a LockId lookup in every reachable state; depth arithmetic of one-level unlock, full release and re-lock with their exact conditions, any state and reachable states; every other hold keeps its depth) are machine-checked over the engine model for all states / core histories; tie = differential correspondence on seeded histories biased to few LockIds, Rcount in {0,1,2,3,254,255}, unlocks of queued / expired / never-existing LockIds, unlock-first and cancel-wait; monitor = ownership + depth arithmetic evaluated on implementation snapshots.',
     note="Trusted: Coq kernel; hand-written model validated by the correspondence check of the same run; extraction (ExtrOcamlBasic only); harness + hooks; sequential schedules at request/sweep granularity, one shard, manual clock (sweeper driver loops replayed by the harness); see evidence trusted_base for the full list of modelled-not-verified parts.",
 )
 PROFILES = [("reentrant", 0.4), ("core", 0.2), ("waiters", 0.12), ("count", 0.08), ("sched", 0.1), ("sched2", 0.08), ("many", 0.02)]
